@@ -409,6 +409,9 @@ type FakeServer struct {
 	streams map[string]chan string // legacy: session -> events to push
 	seq     int
 	GetOpen atomic.Int64
+	// GetTotal counts the listening streams ever opened; EndAllGets makes every later GET end at once, too.
+	GetTotal   atomic.Int64
+	EndAllGets atomic.Bool
 	// PushGET holds frames to be written on any Streamable GET stream that opens.
 	getChans []chan string
 }
@@ -465,13 +468,20 @@ func (f *FakeServer) ServeHTTP(w http.ResponseWriter, r *http.Request) {
 		f.getChans = append(f.getChans, ch)
 		f.mu.Unlock()
 		f.GetOpen.Add(1)
+		f.GetTotal.Add(1)
 		defer f.GetOpen.Add(-1)
 		w.Header().Set("Content-Type", "text/event-stream")
 		w.WriteHeader(200)
 		w.(http.Flusher).Flush()
+		if f.EndAllGets.Load() {
+			return
+		}
 		for {
 			select {
 			case fr := <-ch:
+				if fr == "END:" {
+					return // the server ends the listening stream (a clean end of the response body)
+				}
 				if strings.HasPrefix(fr, "RAWSPLIT:") {
 					writeSplit(w, fr[len("RAWSPLIT:"):])
 				} else if strings.HasPrefix(fr, "RAW:") {
